@@ -45,7 +45,8 @@ register('C04', 'translation_validation',
 register('C15', 'translation_validation',
          "One generated spec is built four ways - Python classes, YAML text through from_yaml, to_yaml -> from_yaml "
          "round trip (of the Python-built and of the YAML-loaded template) and base:-derived operators with equation "
-         "edits over identifiers that contain one another - and each emitted function is proved by z3 equal to the same "
+         "edits over identifiers that contain one another, plus one file path written twice (a decoy with other numbers "
+         "first, loaded, caches cleared, then the model; hand-written YAML and to_yaml) - and each emitted function is proved by z3 equal to the same "
          "reference semantics for all states and parameters. CrossHair decides parser.replace on symbolic equation/term "
          "strings against a whole-identifier reference (confirmed over all paths within the bound).",
          "reals for floats; YAML emitter of the harness is trusted; edits are compared with token-level edits of the "
@@ -59,7 +60,10 @@ register('C05', 'translation_validation',
          "surface variation (spacing, ^ vs **, parentheses, d/dt * x vs x') into one-equation operators; z3 proves the "
          "emitted derivative AND the value produced by ComputeGraph.eval_node (lambdified sympy callables executed on "
          "symbols) equal the direct evaluation of the tree for all variable values. CrossHair confirms split_equation, "
-         "the lhs derivative forms and unique-label generation over symbolic strings / label sequences.",
+         "the lhs derivative forms and unique-label generation over symbolic strings / label sequences. Powers with "
+         "SYMBOLIC exponents (x^y = uninterpreted pow(x, y) on both sides) are evaluated through eval_node as sequences of "
+         "2-3 expressions in one process, in all orders: each value must be what Python's arithmetic gives for the text, "
+         "whatever was evaluated before.",
          "reals for floats; transcendentals are uninterpreted functions with instantiated lemmas, so a `sat` that does "
          "not reproduce numerically is inconclusive (e.g. constants folded by sympy in floating point); depth <= 3/5; "
          "calls whose arguments are all literals, index helpers and complex values are outside (the constants pi and E are generated); _preprocess_dde_syntax "
@@ -73,7 +77,8 @@ register('C20', 'other',
          "Jacobians) and every malformed variant of a valid model (each path component of each edge endpoint, output, "
          "input, update misspelt; declaration removed; reserved name; two outputs; cyclic node; unknown operator) are "
          "executed against the real pipeline and classified raises / warns / returns against the class derived from the "
-         "code's own declarations.",
+         "code's own declarations. History cells: every unsupported (backend, solver) pair is also requested AFTER the same "
+         "solver name ran legally on the backends that declare it, in one process.",
          "the matrix and the malformed variants are exhaustive enumerations of finite spaces, not solver verdicts; "
          "Fortran cells end at the missing f2py/meson tool chain (the guard itself is decided by CrossHair); cells that "
          "return are not re-validated numerically here (see C02/C09/C10)",
@@ -101,7 +106,7 @@ register('C09', 'translation_validation',
          "concretely). Run level: the real Euler/Heun kernels integrate the emitted (stateful) text for K steps on symbolic "
          "state; afterwards every ring buffer must hold its source's recorded trajectory shifted by one slot per STEP "
          "(the Heun kernel evaluates the field twice per step and has to restore them, also for a decorated function).",
-         "reals for floats; delays rounding to 2..4 (quick) / 2..6 (thorough) steps, <= 5 nodes, <= 5 edges; buffers are "
+         "reals for floats; delays rounding to 2..4 (quick) / 2..7 (thorough) steps, <= 5 nodes, <= 5 edges; buffers are "
          "identified by a concrete marker run (a cell receives another cell's marker); Connectivity ring buffers are "
          "handled under C16; JAX refuses ring buffers (C20)",
          "SMT translation validation with symbolic ring-buffer contents (inductive step; symx + z3)", "7/C09")
@@ -163,7 +168,8 @@ register('C14', 'translation_validation',
          "hierarchical in-memory templates with shared node/operator objects and per-node overrides; afterwards the SAME "
          "template is compiled with in_place=False and z3 proves every state variable's derivative equal to the reference "
          "semantics of the original spec (fingerprints check declared initial values and parameter values). run() twice "
-         "is covered by the pair (run, run).",
+         "is covered by the pair (run, run). Circuits of populations: a copy is derived without in_place, the copy's "
+         "population values are edited, the BASE is compiled and proved to be the original model.",
          "reals for floats; operation sequences are bounded enumeration (singles / all ordered pairs); the solver decides "
          "function identity per sequence; 5 template shapes",
          "SMT translation validation of the template after non-mutating operations (symx + z3)", "7/C14")
@@ -174,7 +180,10 @@ register('C13', 'translation_validation',
          "clear, clear_frontend_caches, to_yaml, editing a deep copy. Afterwards the target is compiled and z3 proves its "
          "emitted vector field equal to its own reference semantics (which knows nothing of the history), fingerprints "
          "check returned values, state-map names must be declared names; every function returned earlier is validated "
-         "against its own model and must still return what it returned. OperatorTemplate.apply is enumerated "
+         "against its own model and must still return what it returned. A model FILE is loaded, the loaded template is "
+         "edited (update_var on a node / an edge, with or without compiling, with or without clear_frontend_caches) and "
+         "the same path is loaded again: the second load is proved to be the model the file describes. "
+         "OperatorTemplate.apply is enumerated "
          "exhaustively over a pool of (name, equations, variables) pairs in both orders.",
          "reals for floats; the history quantifier is bounded: all single steps x 4 decoys, plus 16 (quick) / 400 (thorough) "
          "random histories of length 2-3 / 2-4; targets A (and C in thorough); CrossHair cannot decide "
@@ -232,7 +241,9 @@ register('C02', 'translation_validation',
          "Returned argument values are compared by name across backends. The backends' own fixed-step kernels integrate "
          "one uninterpreted, time-dependent vector field and must all return the same reference iterates (small grid "
          "here, the full one in C03). A concrete probe (not solver-decided) checks that a float64 function keeps its "
-         "value after a float32 model was compiled for the same backend.",
+         "value after a float32 model was compiled for the same backend. The KINDS of the module-level constants of the "
+         "emitted Fortran module (invisible to a real-valued encoding) are decided by evaluating each initialiser under "
+         "both kind assignments (binary32 for default-real literals / binary64 throughout): they must agree to 4 ulp.",
          "reals for floats: agreement 'to working precision' of the numerical libraries themselves (torch vs numpy exp) and "
          "float32 effects are not claimed; adaptive integrators outside; the Fortran function is replayed through a "
          "ctypes stand-in for the missing f2py/meson tool chain (same .f90 compiled with gfortran); GPU/Julia/Matlab "
@@ -246,7 +257,9 @@ register('C18', 'translation_validation',
          "forwarding call and the routine's signature order together. Every DFDU and DFDP entry is proved equal to the "
          "forward-mode derivative of the exported routine w.r.t. y and PAR(slot) (so the DFDP column is the slot). "
          "parnames/unames/NDIM/NPAR, slot order = declaration order, distinctness and the reserved range 10..14 are "
-         "checked on the parsed c.* file; CrossHair confirms _auto_param_indices for every tuple length <= 40.",
+         "checked on the parsed c.* file; CrossHair confirms _auto_param_indices for every tuple length <= 40. The kinds "
+         "of the STPNT literals are decided exactly (a default-real literal assigned to a double precision slot must be "
+         "a value binary32 holds exactly; one program carries the values 1/10, 1/3, 7/5, 1/1000).",
          "reals for floats; 2..22 parameters per operator; auto-07p itself is not run; f2py is replaced by a gfortran + "
          "ctypes stand-in in the harness; DFDU/DFDP are assumed zero-initialised by the caller; the line-wrapping helpers "
          "are covered only through the exported programs (CrossHair does not decide them)",
